@@ -534,3 +534,46 @@ func H_C20_reopen_target() {
 	verifAssert((err != nil) == (outer.err != nil), "C20.reopen-target.decorators-failure-reported")
 	verifReach("C20.reopen-target.end")
 }
+
+// removals of ids that are not (or no longer) registered are no-ops: whatever bookkeeping a Send relies on still agrees with
+// the registry afterwards — the registered pipelines are traversed, and nothing panics
+func H_C01_send_after_odd_removals() {
+	b, _ := NewBroker()
+	f, s, s2 := &cNode{typ: NodeTypeFormatter}, &cNode{typ: NodeTypeSink}, &cNode{typ: NodeTypeSink}
+	b.RegisterNode("f", f)
+	b.RegisterNode("s", s)
+	b.RegisterNode("s2", s2)
+	pOn, qOn := false, false
+	n := symLen(1, 4)
+	for i := 0; i < n; i++ {
+		switch symLen(0, 4) {
+		case 0:
+			b.RegisterPipeline(Pipeline{PipelineID: "p", EventType: "t", NodeIDs: []NodeID{"f", "s"}})
+			pOn = true
+		case 1:
+			b.RegisterPipeline(Pipeline{PipelineID: "q", EventType: "t", NodeIDs: []NodeID{"f", "s2"}})
+			qOn = true
+		case 2:
+			b.RemovePipeline("t", "p")
+			pOn = false
+		case 3:
+			b.RemovePipeline("t", "q")
+			qOn = false
+		case 4:
+			b.RemovePipeline("t", "never-registered")
+		}
+	}
+	verifAssume(pOn || qOn)
+	st, _ := b.Send(&vCtx{}, "t", "payload")
+	want := 0
+	if pOn {
+		want++
+	}
+	if qOn {
+		want++
+	}
+	verifAssert(s.procs == b2i(pOn) && s2.procs == b2i(qOn) && f.procs == want, "C01.odd-removals.registered-pipelines-traversed")
+	verifAssert(len(st.complete) == want, "C02.odd-removals.one-entry-per-pipeline")
+	verifAssert(b.IsAnyPipelineRegistered("t"), "C05.odd-removals.is-any")
+	verifReach("C01.odd-removals.end")
+}
